@@ -3,6 +3,7 @@ package main
 import (
 	"fmt"
 	"go/ast"
+	"go/build"
 	"go/importer"
 	"go/parser"
 	"go/token"
@@ -42,7 +43,15 @@ func loadPkg(dir string, importPath string) *Pkg {
 		fatal("chdir %s: %v", repoRoot(), err)
 	}
 	fset := token.NewFileSet()
-	pkgs, err := parser.ParseDir(fset, dir, func(fi os.FileInfo) bool { return !strings.HasSuffix(fi.Name(), "_test.go") }, parser.ParseComments)
+	// the files a plain `go build` compiles: no tests, build constraints honoured (no `verif` tag, so the
+	// harness hooks are seen in their switched-off form)
+	pkgs, err := parser.ParseDir(fset, dir, func(fi os.FileInfo) bool {
+		if strings.HasSuffix(fi.Name(), "_test.go") {
+			return false
+		}
+		ok, err := build.Default.MatchFile(dir, fi.Name())
+		return err == nil && ok
+	}, parser.ParseComments)
 	if err != nil {
 		fatal("parse %s: %v", dir, err)
 	}
